@@ -69,6 +69,7 @@ func witnessConfigs() []*Config {
 		{Name: "w-vp8-dim", Codec: "vp8", V: []VF{k(0, 1), k(1, 1), d(1)}},
 		{Name: "w-vp8-dim4", Codec: "vp8", V: []VF{k(0, 1), d(1), k(1, 1), d(1)}},
 		{Name: "w-vp8+opus", Codec: "vp8", V: []VF{k(0, 1), d(1)}, A: []int{1, 1}, AOff: 5},
+		{Name: "w-vp8+opus-2key", Codec: "vp8", V: []VF{k(0, 1, 1), k(0, 1)}, A: []int{1, 1}, AOff: 5},
 		{Name: "w-vp8-jump", Codec: "vp8", V: []VF{k(0, 1), d(1), d(1)}, Jump: 1},
 		{Name: "w-vp8-pre512", Codec: "vp8", PreN: 257, V: []VF{d(1)}},
 	}
@@ -114,16 +115,6 @@ func configs() []*Config {
 		{Name: "opus-pre2", PreA: 61, PreALoss: 19, A: []int{1, 1, 1, 1, 1, 1}, ASeq0: 65500},
 	}
 	return append(q, t...)
-}
-
-func configByName(name string) *Config {
-	all := append(witnessConfigs(), configs()...)
-	for _, c := range all {
-		if c.Name == name {
-			return c
-		}
-	}
-	return nil
 }
 
 // ---------------------------------------------------------------------------
@@ -191,7 +182,11 @@ func planFor(st *stream, witness bool) plan {
 	pre := st.cfg.PreN > 0 || st.cfg.PreA > 0
 	switch {
 	case witness:
-		return plan{permD: 3, dupBaseD: 1, gapBaseD: 1, gapMax: 2, srBaseD: 1, srPairs: true}
+		p := plan{permD: 3, dupBaseD: 1, gapBaseD: 1, gapMax: 2, srBaseD: 1, srPairs: true}
+		if n <= 5 {
+			p.srBaseD = 2
+		}
+		return p
 	case strings.HasPrefix(st.cfg.Name, "sz-"):
 		return plan{permD: 2, dupBaseD: 0, gapBaseD: 0, gapMax: 2, srBaseD: 0, srPairs: false}
 	case core.Quick() && pre:
@@ -555,16 +550,58 @@ func main() {
 				})
 			}
 			if s := r.subs["witness"]; s != nil {
-				s.Bound = "streams of 1-4 packets (1-3 frames), all families with displacement <= 3"
+				s.Bound = "the smallest streams (1-6 packets, 1-3 frames, one or two tracks), all four families, permutations with displacement <= 3, in the coordinator process: shortest witnesses"
 			}
 			r.flush()
 		}
 		e.close()
-		core.RunShards(res, core.NCPU(), nil, nil)
-		res.Assume("a packet is 'recoverable from the cache' when it was stored in the publisher's cache (as readLoop stores it) and the recorder was written a packet of the same track before it and, once it is in the cache, one after it; a trailing or leading unwritten packet is not noticeable and not demanded")
-		res.Assume("arrival instants: the packet in slot k arrives at max(previous arrival, its capture instant), so no packet arrives before it was captured; the audio/video offset tolerance is the largest arrival delay of the history + 3 ms (ms truncation of two block times and one tick of origin rounding)")
-		res.Assume("audio frames that entered the recorder before the first video keyframe was completely delivered are legitimately absent; when a packet at or before that keyframe never becomes available no audio frame is demanded")
+		core.RunShards(res, core.NCPU(), nil, func(shard int, output string) *core.Violation {
+			// a panic on one of the container writer's goroutines kills the
+			// process (it would kill the server as well)
+			if strings.Contains(output, "panic:") || strings.Contains(output, "fatal error:") {
+				return &core.Violation{Signature: "C20/process-crash", Sub: "shard",
+					What: "the process running the recorder died: " + tailStr(output, 2500)}
+			}
+			return nil
+		})
+		// measured: where the pre-roll macros leave the builders' rings
+		if core.Want("preroll") {
+			var notes []string
+			e2, err := newEnv()
+			if err == nil {
+				for _, c := range configs() {
+					if c.PreN == 0 && c.PreA == 0 {
+						continue
+					}
+					st, err := buildStream(c)
+					if err != nil {
+						continue
+					}
+					var steps []Step
+					for _, i := range st.free {
+						steps = append(steps, Step{"w", i})
+					}
+					o := e2.run(st, &History{Steps: steps, End: "close"})
+					t := trV
+					if c.PreA > 0 {
+						t = trA
+					}
+					notes = append(notes, fmt.Sprintf("%s head=%d tail=%d of %d", c.Name, o.ring[t][0], o.ring[t][1], o.ring[t][2]))
+				}
+				e2.close()
+			}
+			for i := range res.Subs {
+				if res.Subs[i].Name == "preroll" {
+					res.Subs[i].Note = "measured ring position of the sample builder after the pre-roll macro (buffer non-empty): " + strings.Join(notes, "; ")
+				}
+			}
+		}
+		res.Assume("a packet that was not written to the recorder is 'recoverable from the cache' when it is in the publisher's cache (stored as readLoop stores it) at the moment the gap is noticed, i.e. when the first packet after it is written to the recorder, a packet of the track before it having been written earlier; a leading or trailing unwritten packet is not noticeable and not demanded")
+		res.Assume("arrival instants: the packet in slot k arrives at max(previous arrival, its capture instant), so no packet arrives before it was captured; the audio/video offset tolerance is the largest arrival delay of the history (every copy of a packet, and cache fetches at the instant of the fetch) + 3 ms (ms truncation of two block times and one tick of origin rounding)")
+		res.Assume("the connection's first keyframe is, among the keyframes all of whose packets were available, the one whose first packet reached the recorder first; video frames sent before it are legitimately absent")
+		res.Assume("audio frames that entered the recorder before the first video keyframe was completely delivered, or that were captured less than the tolerance after it, are legitimately absent (the file's time zero is the keyframe); when a packet at or before that keyframe never becomes available no audio frame is demanded")
 		res.Assume("the cache holds exactly the packets the server received before: a reordered packet is not in the cache when the gap it leaves is noticed")
+		res.Assume("H264 frames are single NAL unit packets or FU-A fragment groups (what pion's depacketiser and the sample builder delimit as one sample); access units made of several NAL unit packets are outside the alphabet")
 		core.Finish(res, t0)
 	}
 
